@@ -41,7 +41,7 @@ type ggenOpts struct {
 }
 
 type gspec struct {
-	Kinds []string   // per module: esm | cjs
+	Kinds []string    // per module: esm | cjs
 	Edges [][3]string // from index, form, to index (as strings)
 }
 
